@@ -829,3 +829,20 @@ V("c03-describe-unqualified-view", A, "C03", "C03.e",
   ("transforms", "FROM ${catalog}.information_schema._fs_columns_snowflake", "FROM information_schema._fs_columns_snowflake"))
 V("c03-drop-schema-if-exists-guard", A, "C03", "C03.d",
   ("checks", """            no_database = not node.args.get("db" if node.args.get("this") else "catalog")""", """            no_database = not node.args.get("catalog")"""))
+V("c02-neutral-exact-text-parse-cache", N, ["C02", "C16", "C08"], None,
+  ("cursor", """class FakeSnowflakeCursor:
+    def __init__(""", """_PARSED: dict[str, exp.Expression] = {}
+
+
+def _parse(command: str) -> exp.Expression:
+    # keyed by the exact text: quoted identifiers and literals are case-sensitive
+    if command not in _PARSED:
+        _PARSED[command] = parse_one(command, read="snowflake")
+    return _PARSED[command].copy()
+
+
+class FakeSnowflakeCursor:
+    def __init__("""),
+  ("cursor", """            expression = parse_one(command, read="snowflake")
+            for exp in self._transform_explode(expression):""", """            expression = _parse(command)
+            for exp in self._transform_explode(expression):"""))
